@@ -571,6 +571,28 @@ theorem encode_pinned_fails :
     (encode true (.arr [.pyint 1, .npint 2])).isSome = true := by
   decide
 
+/-- **send_history_at_call**: for every program that amends a dictionary in place and sends it any
+    number of times, the frames are the encodings of the dictionary as it was at each send, in
+    order — whatever the program does to it afterwards. -/
+theorem send_history_at_call (d : List (String × KVal)) (ops : List SOp) :
+    sendHistory .atCall d ops = (statesAtSends d ops).map (fun st => send true (.dict st)) := by
+  induction ops generalizing d with
+  | nil => rfl
+  | cons op ops ih =>
+    cases op with
+    | set k v => simp only [sendHistory, statesAtSends, ih]
+    | send => simp only [sendHistory, statesAtSends, ih, List.map_cons]
+
+/-- **deferred_encoding_breaks**: encoding when the io loop gets to the queued send (from the live
+    object) violates it: send {n:1}, amend, send {n:2}, amend to 3 — the peer gets {n:3} twice. -/
+theorem deferred_encoding_breaks :
+    sendHistory .atFlush [] [.set "n" (.pyint 1), .send, .set "n" (.pyint 2), .send, .set "n" (.pyint 3)] ≠
+      (statesAtSends [] [.set "n" (.pyint 1), .send, .set "n" (.pyint 2), .send, .set "n" (.pyint 3)]).map
+        (fun st => send true (.dict st)) ∧
+    sendHistory .atFlush [] [.set "n" (.pyint 1), .send, .set "n" (.pyint 2), .send, .set "n" (.pyint 3)] =
+      [send true (.dict [("n", .pyint 3)]), send true (.dict [("n", .pyint 3)])] := by
+  decide
+
 /-! ------------------------------------------------------------------------------------
   ## Property theorems (C20) — JSON text level (`WF`: every real is a JSON number literal,
   which is what `repr(float)` produces; helper lemmas in Props/C20Json.lean)
